@@ -1,5 +1,19 @@
 (** Correspondence driver for C14: evaluated by [vm_compute] on case files written by the Rust
-    harness (harness/hc_scmp/src/bin/h_scmp.rs).  For each case the model is run on the same
+    harness (harness/hc_scmp/src/bin/h_scmp.rs).
+
+    Producers of SCMP error packets and the case kinds that judge them -- every one with the
+    same oracles [err_oracles] (total <= 1232, well-formed, SCMP error type, quote is a prefix of
+    the offending packet and maximal), [ck_verdict] (RFC 1071) and "no reply to an SCMP error":
+      sciparse encoders      CEnc src 0   all five kinds (round-robin), every header shape
+      SNAP gateway           CEnc src 2   ParameterProblem for the three failed checks
+      pocketscion, local     CSim         all five kinds via SendSCMPErrorResponse, every
+                                          StandardRoutingError::to_scmp_error variant, local dispatch
+      pocketscion, routing   CNet         errors raised by the real traversal of real paths (link
+                                          down, MAC, expiry, ingress, interface, delivery ...); the
+                                          offending packet is the packet AS IT STOOD AT THE ROUTER
+                                          THAT RAISED THE ERROR (path pointers / SegIDs advanced by
+                                          the traversal; identical to the injected packet outside
+                                          the path, which is checked)  For each case the model is run on the same
     input as the implementation and the results are compared (bit 1); the property oracles of
     [Scmp.Spec] are evaluated on the IMPLEMENTATION's observed output (bit 2, or the bit of a
     known-finding class):
@@ -39,6 +53,14 @@ Inductive scase :=
     traceroute requests answered by the router: local AS, router address (nibble, bytes),
     interface id, outcome (0 = Ok(None), 1 = reply, 2 = Err, 99 = panic), encoded reply *)
 | CSimEcho (pkt : rl) (p : dppath) (local_as rnib : N) (rraw : list N) (ifid : N) (oc : N) (out : rl)
+(** pocketscion's routing simulator (ScionNetworkSim::simulate_traversal with the specification
+    routing logic) followed, as in NetworkSimulator::dispatch, by handle_local_routing_action at
+    the router the traversal ended at: the packet as injected, the packet as it stood at that
+    router when the error was raised (the traversal moves the path pointers and SegIDs in place;
+    THIS is the offending packet the router quotes), the scenario's expected SCMP type / code
+    (0 = not fixed by the scenario), whether the scenario must produce a reply, the AS that
+    answered, outcome (0 = no reply, 1 = reply, 2 = Err, 3 = not encodable, 99 = panic), reply *)
+| CNet (inj at_ : rl) (ety ecode : N) (expect_reply : bool) (at_as : N) (oc : N) (out : rl)
 (** the socket receive loop on a stream of packets: observed datagrams / replies / error
     callbacks, each tagged with the 1-based index of the packet that caused it *)
 | CStr (with_echo : bool) (buflen : N) (pkts : list (rl * dppath))
@@ -233,10 +255,13 @@ Definition verdict (c : scase) : N :=
       | _ => negb (oc =? 99)
       end in
     let '(ok, _) := err_oracles v o in
+    (* addressed back to the source of the offending packet, by literal offsets *)
+    let addressed := (sp_dst_ia o =? sp_src_ia v) && (sp_dst_nib o =? sp_src_nib v)
+                     && bytes_eqb (sp_dst_host o) (sp_src_host v) in
     let loop := replied && spec_is_scmp_error v in
     let loop_known := loop && negb (existsb (N.eqb (sp_scmp_type v)) [1; 2; 4; 5; 6]) in
     b2n mis 1
-    |+ (if replied then b2n (negb ok) 2 |+ ck_verdict o else b2n (oc =? 99) 2)
+    |+ (if replied then b2n (negb (ok && addressed)) 2 |+ ck_verdict o else b2n (oc =? 99) 2)
     |+ b2n (loop && negb loop_known) 2 |+ b2n loop_known 64
   | CSimEcho pkt p local_as rnib rraw ifid oc out =>
     let v := rle_expand pkt in let o := rle_expand out in
@@ -260,6 +285,37 @@ Definition verdict (c : scase) : N :=
                    && negb (echo_reply_payload_ok v o && (sp_dst_ia o =? sp_src_ia v)
                             && bytes_eqb (sp_dst_host o) (sp_src_host v))) in
     b2n mis 1 |+ b2n bad 2 |+ (if replied then ck_verdict o else 0)
+  | CNet inj at_ ety ecode expect_reply at_as oc out =>
+    let iv := rle_expand inj in let av := rle_expand at_ in let o := rle_expand out in
+    let replied := oc =? 1 in
+    (* the router's copy differs from the injected packet only inside the path *)
+    let pstart := 28 + nib_len (sp_dst_nib iv) + nib_len (sp_src_nib iv) in
+    let same_outside := (lenN iv =? lenN av) && bytes_eqb (subN iv 0 pstart) (subN av 0 pstart)
+                        && bytes_eqb (skipn (N.to_nat (sp_hdr_len iv)) iv) (skipn (N.to_nat (sp_hdr_len iv)) av) in
+    (* the model's encoder on the message the reply announces *)
+    let pl := sp_payload o in
+    let ty := nthN pl 0 in
+    let f16 := 256 * nthN pl 6 + nthN pl 7 in
+    let m := if ty =? 1 then mkE 1 (nthN pl 1) 0 0 0 av
+             else if (ty =? 2) || (ty =? 4) then mkE ty (nthN pl 1) f16 0 0 av
+             else mkE ty 0 (be_val 0 (subN pl 4 12)) (be_val 0 (subN pl 12 20)) (be_val 0 (subN pl 20 28)) av in
+    let h := sp_hdr_len o in
+    let mis :=
+      negb same_outside ||
+      (if replied then
+         match encode_err m h with
+         | Ok mb => negb (bytes_eqb (zero_ck pl) mb && optN_eqb (Some (blen o)) (err_packet_size m h)
+                          && ((ety =? 0) || (ty =? ety)) && ((ecode =? 0) || (nthN pl 1 =? ecode))
+                          && (negb ((ty =? 5) || (ty =? 6)) || (be_val 0 (subN pl 4 12) =? at_as)))
+         | _ => true
+         end
+       else (oc =? 0) && expect_reply && negb (spec_is_scmp_error iv)) in
+    let '(ok, _) := err_oracles av o in
+    let addressed := (sp_dst_ia o =? sp_src_ia iv) && (sp_dst_nib o =? sp_src_nib iv)
+                     && bytes_eqb (sp_dst_host o) (sp_src_host iv) && (sp_src_ia o =? at_as) in
+    let loop := replied && spec_is_scmp_error iv in
+    b2n mis 1
+    |+ (if replied then b2n (negb (ok && addressed) || loop) 2 |+ ck_verdict o else b2n ((oc =? 99) || (oc =? 3)) 2)
   | CStr with_echo buflen pkts dgs reps errs =>
     let ps := map (fun x : rl * dppath => (rle_expand (fst x), snd x)) pkts in
     let effs := recv_stream with_echo buflen ps in
